@@ -1,4 +1,381 @@
+//! Gen/Api.lean (+ api.json): the public signature table.
+//! One row per `pub fn` / trait-impl method of HashMap, HashSet, HashMapRef, HashSetRef and the
+//! iterator types, with receiver / parameter / return lifetimes (elision resolved) and the
+//! trait bounds of the method and of its impl block; one row per struct field that carries a
+//! lifetime; one row per `unsafe impl Send/Sync`.
+use crate::expr::tokens_of;
 use crate::util::*;
-pub fn generate(_files: &[SourceFile], _report: &mut Report) -> String {
-    String::from("-- GENERATED placeholder\n")
+use syn::visit::Visit;
+
+const TYPES: &[&str] = &["HashMap", "HashSet", "HashMapRef", "HashSetRef", "Iter", "Keys", "Values"];
+
+#[derive(Default, Clone)]
+struct Row {
+    ty: String,
+    self_ty: String,
+    name: String,
+    trait_: String,
+    public: bool,
+    self_lt: Option<String>,
+    self_kind: String, // "ref", "mut", "value", "none"
+    params: Vec<(String, String, Option<String>)>, // name, type text, reference lifetime
+    guard_params: Vec<(String, String)>,           // name, reference lifetime
+    ret: String,
+    ret_lts: Vec<String>,
+    ret_borrows: bool,
+    bounds: Vec<(String, String)>, // (type param, bound) from impl + method
+    file: String,
+}
+
+struct LtCollector {
+    lts: Vec<String>,
+    elided_refs: usize,
+}
+impl<'ast> Visit<'ast> for LtCollector {
+    fn visit_lifetime(&mut self, l: &'ast syn::Lifetime) {
+        self.lts.push(format!("'{}", l.ident));
+    }
+    fn visit_type_reference(&mut self, r: &'ast syn::TypeReference) {
+        if r.lifetime.is_none() {
+            self.elided_refs += 1;
+        }
+        syn::visit::visit_type_reference(self, r);
+    }
+}
+
+fn lifetimes_of(t: &syn::Type) -> (Vec<String>, usize) {
+    let mut c = LtCollector { lts: vec![], elided_refs: 0 };
+    c.visit_type(t);
+    (c.lts, c.elided_refs)
+}
+
+fn bounds_of_generics(g: &syn::Generics, out: &mut Vec<(String, String)>) {
+    for p in &g.params {
+        if let syn::GenericParam::Type(tp) = p {
+            for b in &tp.bounds {
+                out.push((tp.ident.to_string(), tokens_of(b)));
+            }
+        }
+    }
+    if let Some(w) = &g.where_clause {
+        for pr in &w.predicates {
+            if let syn::WherePredicate::Type(pt) = pr {
+                let lhs = tokens_of(&pt.bounded_ty);
+                for b in &pt.bounds {
+                    out.push((lhs.clone(), tokens_of(b)));
+                }
+            }
+        }
+    }
+}
+
+fn base_name(self_ty: &str) -> String {
+    self_ty.trim_start_matches('&').split('<').next().unwrap_or("").to_string()
+}
+
+/// the key/value (map) or element (set) type parameters as the impl block names them
+fn elem_params(ty: &str, self_ty: &str) -> Vec<String> {
+    let inner = match (self_ty.find('<'), self_ty.rfind('>')) {
+        (Some(a), Some(b)) if a < b => &self_ty[a + 1..b],
+        _ => return vec![],
+    };
+    // split on top-level commas
+    let mut parts = vec![];
+    let (mut depth, mut cur) = (0i32, String::new());
+    for c in inner.chars() {
+        match c {
+            '<' | '(' => { depth += 1; cur.push(c) }
+            '>' | ')' => { depth -= 1; cur.push(c) }
+            ',' if depth == 0 => { parts.push(cur.clone()); cur.clear() }
+            _ => cur.push(c),
+        }
+    }
+    if !cur.is_empty() {
+        parts.push(cur);
+    }
+    let tys: Vec<String> = parts.into_iter().filter(|p| !p.starts_with('\'')).collect();
+    let n = if ty.starts_with("HashSet") { 1 } else if ty.starts_with("HashMap") { 2 } else { 0 };
+    tys.into_iter().take(n).collect()
+}
+
+fn ret_is_borrow(ret: &str) -> bool {
+    ret.contains('&') || ret.contains('\'') || ["Iter<", "Keys<", "Values<", "HashMapRef<", "HashSetRef<", "TryInsertError<"].iter().any(|p| ret.contains(p))
+}
+
+pub fn generate(files: &[SourceFile], report: &mut Report) -> String {
+    let mut rows: Vec<Row> = vec![];
+    let mut fields: Vec<(String, Vec<String>, String, String, Vec<String>)> = vec![]; // struct, lifetime params, field, type, lts
+    let mut unsafe_impls: Vec<(String, String, Vec<(String, String)>)> = vec![]; // trait, type, bounds
+    for sf in files {
+        for it in &sf.ast.items {
+            match it {
+                syn::Item::Struct(s) => {
+                    let name = s.ident.to_string();
+                    if !TYPES.contains(&name.as_str()) {
+                        continue;
+                    }
+                    let lps: Vec<String> = s.generics.lifetimes().map(|l| format!("'{}", l.lifetime.ident)).collect();
+                    for f in &s.fields {
+                        let (lts, elided) = lifetimes_of(&f.ty);
+                        let mut lts = lts;
+                        if elided > 0 {
+                            lts.push("'_elided".into());
+                        }
+                        fields.push((name.clone(), lps.clone(), f.ident.as_ref().map(|i| i.to_string()).unwrap_or_default(), tokens_of(&f.ty), lts));
+                    }
+                }
+                syn::Item::Impl(im) => {
+                    if is_cfg_test(&im.attrs) || is_cfg_verif(&im.attrs) {
+                        continue;
+                    }
+                    let self_ty = tokens_of(&im.self_ty);
+                    let base = base_name(&self_ty);
+                    let trait_ = im.trait_.as_ref().map(|(_, p, _)| tokens_of(p)).unwrap_or_default();
+                    if im.unsafety.is_some() && (trait_ == "Send" || trait_ == "Sync") {
+                        let mut b = vec![];
+                        bounds_of_generics(&im.generics, &mut b);
+                        unsafe_impls.push((trait_.clone(), self_ty.clone(), b));
+                        continue;
+                    }
+                    if !TYPES.contains(&base.as_str()) {
+                        continue;
+                    }
+                    let mut impl_bounds = vec![];
+                    bounds_of_generics(&im.generics, &mut impl_bounds);
+                    for ii in &im.items {
+                        match ii {
+                            syn::ImplItem::Type(t) if !trait_.is_empty() => {
+                                let (lts, elided) = lifetimes_of(&t.ty);
+                                let mut lts = lts;
+                                if elided > 0 {
+                                    lts.push("'_elided".into());
+                                }
+                                let lps: Vec<String> = im.generics.lifetimes().map(|l| format!("'{}", l.lifetime.ident)).collect();
+                                rows.push(Row {
+                                    ty: base.clone(),
+                                    self_ty: self_ty.clone(),
+                                    name: format!("type {}", t.ident),
+                                    trait_: trait_.clone(),
+                                    public: true,
+                                    self_lt: lps.first().cloned(),
+                                    self_kind: "assoc".into(),
+                                    ret: tokens_of(&t.ty),
+                                    ret_borrows: ret_is_borrow(&tokens_of(&t.ty)),
+                                    ret_lts: lts,
+                                    bounds: impl_bounds.clone(),
+                                    file: sf.rel.clone(),
+                                    ..Default::default()
+                                });
+                            }
+                            syn::ImplItem::Fn(f) => {
+                                if is_cfg_test(&f.attrs) || is_cfg_verif(&f.attrs) {
+                                    continue;
+                                }
+                                let public = !trait_.is_empty() || matches!(f.vis, syn::Visibility::Public(_));
+                                if !public {
+                                    continue;
+                                }
+                                let mut r = Row {
+                                    ty: base.clone(),
+                                    self_ty: self_ty.clone(),
+                                    name: f.sig.ident.to_string(),
+                                    trait_: trait_.clone(),
+                                    public,
+                                    file: sf.rel.clone(),
+                                    self_kind: "none".into(),
+                                    ..Default::default()
+                                };
+                                r.bounds = impl_bounds.clone();
+                                bounds_of_generics(&f.sig.generics, &mut r.bounds);
+                                let mut input_lts: Vec<String> = vec![];
+                                for (pi, a) in f.sig.inputs.iter().enumerate() {
+                                    match a {
+                                        syn::FnArg::Receiver(rc) => {
+                                            if let Some((_, lt)) = &rc.reference {
+                                                r.self_kind = if rc.mutability.is_some() { "mut".into() } else { "ref".into() };
+                                                let l = lt.as_ref().map(|l| format!("'{}", l.ident)).unwrap_or("'_self".into());
+                                                r.self_lt = Some(l.clone());
+                                                input_lts.push(l);
+                                            } else {
+                                                r.self_kind = "value".into();
+                                                // `self` of type `&'g HashMapRef` (IntoIterator for &Ref): lifetime of the impl's self type
+                                                if self_ty.starts_with('&') {
+                                                    let (lts, _) = lifetimes_of(&im.self_ty);
+                                                    if let Some(l) = lts.first() {
+                                                        r.self_lt = Some(l.clone());
+                                                        input_lts.push(l.clone());
+                                                    }
+                                                }
+                                            }
+                                        }
+                                        syn::FnArg::Typed(pt) => {
+                                            let name = match &*pt.pat {
+                                                syn::Pat::Ident(pi) => pi.ident.to_string(),
+                                                _ => format!("_{}", pi),
+                                            };
+                                            let ty = tokens_of(&pt.ty);
+                                            let ref_lt = if let syn::Type::Reference(tr) = &*pt.ty {
+                                                Some(tr.lifetime.as_ref().map(|l| format!("'{}", l.ident)).unwrap_or(format!("'_p{}", pi)))
+                                            } else {
+                                                None
+                                            };
+                                            let (lts, _) = lifetimes_of(&pt.ty);
+                                            for l in lts {
+                                                if l != "'_" {
+                                                    input_lts.push(l);
+                                                }
+                                            }
+                                            if let Some(l) = &ref_lt {
+                                                if l.starts_with("'_p") {
+                                                    input_lts.push(l.clone());
+                                                }
+                                            }
+                                            if ty.starts_with('&') && ty.contains("Guard<") {
+                                                r.guard_params.push((name.clone(), ref_lt.clone().unwrap_or_default()));
+                                            }
+                                            r.params.push((name, ty, ref_lt));
+                                        }
+                                    }
+                                }
+                                if let syn::ReturnType::Type(_, t) = &f.sig.output {
+                                    r.ret = tokens_of(t);
+                                    let (lts, elided) = lifetimes_of(t);
+                                    let mut out_lts = vec![];
+                                    let resolve_elided = |input_lts: &Vec<String>, self_lt: &Option<String>| -> String {
+                                        if let Some(s) = self_lt {
+                                            s.clone()
+                                        } else {
+                                            let mut d = input_lts.clone();
+                                            d.sort();
+                                            d.dedup();
+                                            if d.len() == 1 {
+                                                d[0].clone()
+                                            } else {
+                                                "'_unresolved".into()
+                                            }
+                                        }
+                                    };
+                                    for l in lts {
+                                        if l == "'_" {
+                                            out_lts.push(resolve_elided(&input_lts, &r.self_lt));
+                                        } else {
+                                            out_lts.push(l);
+                                        }
+                                    }
+                                    for _ in 0..elided {
+                                        out_lts.push(resolve_elided(&input_lts, &r.self_lt));
+                                    }
+                                    out_lts.sort();
+                                    out_lts.dedup();
+                                    // `Self` return of a type with lifetime params (Clone for refs) is not a borrow of an argument
+                                    r.ret_borrows = ret_is_borrow(&r.ret);
+                                    r.ret_lts = out_lts;
+                                }
+                                rows.push(r);
+                            }
+                            _ => {}
+                        }
+                    }
+                }
+                _ => {}
+            }
+        }
+    }
+
+    let ls = |v: &[String]| format!("[{}]", v.iter().map(|s| lean_str(s)).collect::<Vec<_>>().join(", "));
+    let mut out = String::from("-- GENERATED by /verif/extract from /repo/src on every run. Do not edit.\n");
+    out.push_str("import Flurry.SigDefs\nnamespace Flurry.Gen\nopen Flurry.Sig\n\ndef apiFns : List ApiFn := [\n");
+    let mut lines = vec![];
+    for r in &rows {
+        lines.push(format!(
+            "  {{ ty := {}, selfTy := {}, elems := {}, fn := {}, trait_ := {}, traitHead := {}, makesValue := {}, selfLt := {}, selfKind := {}, params := [{}], guardLts := {}, ret := {}, retLts := {}, retBorrows := {}, bounds := [{}] }}",
+            lean_str(&r.ty),
+            lean_str(&r.self_ty),
+            ls(&elem_params(&r.ty, &r.self_ty)),
+            lean_str(&r.name),
+            lean_str(&r.trait_),
+            lean_str(r.trait_.split('<').next().unwrap_or("")),
+            r.bounds.iter().any(|b| b.1.contains("->Option<V>") || b.1.contains("->Option<T>")),
+            match &r.self_lt {
+                Some(l) => format!("some {}", lean_str(l)),
+                None => "none".into(),
+            },
+            lean_str(&r.self_kind),
+            r.params.iter().map(|(n, t, _)| format!("({}, {})", lean_str(n), lean_str(t))).collect::<Vec<_>>().join(", "),
+            ls(&r.guard_params.iter().map(|g| g.1.clone()).collect::<Vec<_>>()),
+            lean_str(&r.ret),
+            ls(&r.ret_lts),
+            r.ret_borrows,
+            r.bounds.iter().map(|(a, b)| format!("({}, {})", lean_str(a), lean_str(b))).collect::<Vec<_>>().join(", "),
+        ));
+    }
+    out.push_str(&lines.join(",\n"));
+    out.push_str("\n]\n\ndef apiFields : List ApiField := [\n");
+    out.push_str(
+        &fields
+            .iter()
+            .map(|(s, lps, f, t, lts)| format!("  {{ struct_ := {}, ltParams := {}, field := {}, ty := {}, lts := {} }}", lean_str(s), ls(lps), lean_str(f), lean_str(t), ls(lts)))
+            .collect::<Vec<_>>()
+            .join(",\n"),
+    );
+    out.push_str("\n]\n\ndef unsafeImpls : List UnsafeImpl := [\n");
+    out.push_str(
+        &unsafe_impls
+            .iter()
+            .map(|(t, ty, b)| {
+                format!(
+                    "  {{ trait_ := {}, ty := {}, bounds := [{}] }}",
+                    lean_str(t),
+                    lean_str(ty),
+                    b.iter().map(|(a, b)| format!("({}, {})", lean_str(a), lean_str(b))).collect::<Vec<_>>().join(", ")
+                )
+            })
+            .collect::<Vec<_>>()
+            .join(",\n"),
+    );
+    out.push_str("\n]\n\nend Flurry.Gen\n");
+
+    // the same table as JSON for the rustc corpus generator
+    let esc = |s: &str| s.replace('\\', "\\\\").replace('"', "\\\"");
+    let js = |v: &[String]| format!("[{}]", v.iter().map(|s| format!("\"{}\"", esc(s))).collect::<Vec<_>>().join(","));
+    let mut j = String::from("[\n");
+    j.push_str(
+        &rows
+            .iter()
+            .map(|r| {
+                format!(
+                    "{{\"ty\":\"{}\",\"self_ty\":\"{}\",\"fn\":\"{}\",\"trait\":\"{}\",\"self_lt\":{},\"self_kind\":\"{}\",\"params\":[{}],\"guard_lts\":{},\"ret\":\"{}\",\"ret_lts\":{},\"ret_borrows\":{},\"bounds\":[{}],\"file\":\"{}\"}}",
+                    esc(&r.ty),
+                    esc(&r.self_ty),
+                    esc(&r.name),
+                    esc(&r.trait_),
+                    r.self_lt.as_ref().map(|l| format!("\"{}\"", esc(l))).unwrap_or("null".into()),
+                    r.self_kind,
+                    r.params.iter().map(|(n, t, _)| format!("[\"{}\",\"{}\"]", esc(n), esc(t))).collect::<Vec<_>>().join(","),
+                    js(&r.guard_params.iter().map(|g| g.1.clone()).collect::<Vec<_>>()),
+                    esc(&r.ret),
+                    js(&r.ret_lts),
+                    r.ret_borrows,
+                    r.bounds.iter().map(|(a, b)| format!("[\"{}\",\"{}\"]", esc(a), esc(b))).collect::<Vec<_>>().join(","),
+                    esc(&r.file)
+                )
+            })
+            .collect::<Vec<_>>()
+            .join(",\n"),
+    );
+    j.push_str("\n]\n");
+    API_JSON.with(|c| *c.borrow_mut() = j);
+    report.count("api_fns", rows.len());
+    report.count("api_fields", fields.len());
+    report.count("unsafe_send_sync_impls", unsafe_impls.len());
+    if rows.is_empty() {
+        report.fail("api", "no public functions found");
+    } else {
+        report.ok("api");
+    }
+    out
+}
+
+thread_local! {
+    pub static API_JSON: std::cell::RefCell<String> = const { std::cell::RefCell::new(String::new()) };
 }
